@@ -82,7 +82,7 @@ theorem materialize_sim (w : World F E) (ps : List (Spec E)) (d : Data) (order :
         obtain ⟨w1, w2, w3, w4⟩ := writeBack_spec ev.state (p0 :: ps) w ht
         obtain ⟨b1, b2, b3, b4, b5, b6, b7⟩ := buildAll_sim P d
           ((List.range (P.nrows d)).filter fun i => !ev.drops i) ev.cache (p0 :: ps)
-          (writeBack ev.state w (p0 :: ps)) (fun _ _ => none) (.ok []) he (by intro l hl x hx; simp at hl; subst hl; simp at hx)
+          (writeBack ev.state w (p0 :: ps)) Caches.empty (.ok []) he (by intro l hl x hx; simp at hl; subst hl; simp at hx)
         have hm := absS_writeBack ev.state (p0 :: ps) w ht
         rw [hm] at b1 b2
         simp only [List.map_cons] at b2
